@@ -338,8 +338,10 @@ func (e newTorrentEvent) apply(s *state) {
 			// The request opened its torrent outside of the event loop; the blob
 			// may have been deleted since (RemoveTorrent, cache eviction). Adding
 			// that stale object would report success for, and seed, a blob which
-			// is no longer in the cache.
-			if _, err := s.sched.torrentArchive.Stat(e.namespace, e.torrent.Digest()); err != nil {
+			// is no longer in the cache. The archive entry may already have been
+			// re-created (empty) by another request, so it must also be complete.
+			info, err := s.sched.torrentArchive.Stat(e.namespace, e.torrent.Digest())
+			if err != nil || !info.Bitfield().All() {
 				e.errc <- ErrTorrentRemoved
 				return
 			}
